@@ -26,9 +26,9 @@ Qed.
 Theorem parse_uint_dec id : id < 18446744073709551616 -> pb_parse_uint (dec_of_N id) = Some id.
 Proof.
   intro H. unfold pb_parse_uint.
-  destruct (dec_of_N_last (fun _ => true) id) as (m & c & E & _).
+  destruct (dec_of_N_last id) as (m & c & E & _).
   destruct (dec_of_N id) as [|d ds] eqn:Ed; [destruct m; discriminate|]. rewrite <- Ed.
-  rewrite uint_go_hval; [rewrite hval_dec; reflexivity|apply (dec_of_N_range (fun _ => true))|rewrite hval_dec; exact H].
+  rewrite uint_go_hval; [rewrite hval_dec; reflexivity|apply dec_of_N_range|rewrite hval_dec; exact H].
 Qed.
 
 Definition var_of (pv : option bstr) : bstr := match pv with Some v => v | None => [] end.
